@@ -7,6 +7,7 @@ import (
 	"strings"
 	"sync"
 	"sync/atomic"
+	"time"
 )
 
 // Rec is one observed event. T is a process-wide logical tick; records are totally ordered by T.
@@ -24,8 +25,9 @@ type Rec struct {
 	C   uint64 `json:"c,omitempty"`
 	D   uint64 `json:"d,omitempty"`
 	E   uint64 `json:"e,omitempty"`
-	S   string `json:"s,omitempty"` // key / name / free text
+	S   string `json:"s,omitempty"`  // key / name / free text
 	Cn  int    `json:"cn,omitempty"` // connection id
+	W   int64  `json:"w,omitempty"`  // wall clock (unix nanoseconds), only for lower-bound arguments ("a timer cannot fire early")
 }
 
 func (r Rec) String() string {
@@ -79,6 +81,7 @@ func (l *Log) Add(r Rec) int64 {
 	if r.T == 0 {
 		r.T = Tick()
 	}
+	r.W = time.Now().UnixNano()
 	l.recs = append(l.recs, r)
 	for _, s := range l.subs {
 		s(r)
